@@ -21,7 +21,7 @@ checks = {
  'C14': ("reference-model monitor: math/big beside predicate aliases; exhaustive micro-grid + random hard operands", "§8 C14"),
  'C15': ("reference-model monitor: exact subsequence/area/winding/collinearity checks; as-built algorithm model only for attribution", "§8 C15"),
  'C16': ("reference-model monitor: exact perpendicular distances, epsilon-0 area, translation/scale invariance of the retained set", "§8 C16"),
- 'C17': ("metamorphic monitor over 15 spellings per input + in-process and cross-process byte determinism", "§8 C17"),
+ 'C17': ("metamorphic monitor over 16 spellings per input + in-process and cross-process byte determinism", "§8 C17"),
  'C18': ("Go race detector over 16/64-goroutine workloads on shared inputs + result monitor against a sequential run; yield hook", "§8 C18"),
  'C19': ("metamorphic monitor over the library's own five results per input: exact areas + pointwise identities", "§8 C19"),
 }
@@ -32,19 +32,19 @@ TEXT = {
  'C03': GEN+"Every exported callable is invoked (asserted against the parsed source) on degenerate shapes and every enum value incl. out-of-range ones; hangs are decided by a logical step budget, fatal crashes and unbounded allocation by the process supervisor.",
  'C04': GEN+"All pairs of tree polygons are tested for containment where that is decidable outside the rounding band; the tree is compared with the flat result polygon by polygon.",
  'C05': GEN+"Inputs are validated as simple; membership is exact, distances carry a conservative margin; all 4 joins, both signs, miter limits, arc tolerances, multi-group objects.",
- 'C06': GEN+"Exact winding comparison inside and outside the rectangle for random, snapped, enclosing and disjoint rectangles; self-intersecting families are a closed pool because the clipper has listed findings there.",
+ 'C06': GEN+"Exact winding comparison inside and outside the rectangle for random, snapped, enclosing and disjoint rectangles; self-intersecting families are a closed pool; a fraction of the fresh cases is shifted so that a crossing or corner lies exactly on the origin.",
  'C07': GEN+"Differential: every D entry point against its 64-bit counterpart on the library's own quantisation, which is itself checked against big.Float rounding; all 17 precisions plus out-of-range ones.",
  'C08': GEN+"The oracle decides 'pattern boundary meets path' exactly and only at points where the answer is provably stable over the 2-unit neighbourhood.",
- 'C09': GEN+"Sampled points of the subject lines away from closed edges are classified by exact winding and compared with coverage by the open solution for all 4 clip types.",
+ 'C09': GEN+"Sampled points of the subject lines away from closed edges are classified by exact winding and compared with coverage by the open solution for all 4 clip types; all families are fresh per seed since the two open-path repairs.",
  'C10': GEN+"Sub-checks (canonical result, reach bound, interior coverage, end segments and caps, joined loops, single points) are separate so that the known end-cap finding does not blind the others.",
  'C11': GEN+"Vertices, order and coverage are checked for random, snapped and two-point lines through all four entry points.",
- 'C12': GEN+"Random sequential histories on one object are compared step by step with a fresh-object replay of the model state; scratch state is asserted empty through a hook at every quiescent point; ~20 library calls are bracketed by deep copies of their inputs.",
- 'C13': GEN+"Translations up to 2^52 and scalings up to 2^61 of inputs whose untransformed result is right; failures beyond the int64-product overflow threshold (differences > 2^31) are a listed finding recognised by magnitude.",
+ 'C12': GEN+"Random sequential histories on one object (AddPaths or path-by-path AddPath) are compared step by step with a fresh-object replay of the model state; scratch state is asserted empty through a hook at every quiescent point; ~20 library calls are bracketed by deep copies of their inputs.",
+ 'C13': GEN+"Translations up to 2^52, scalings up to 2^61, and small shifts that put a notable point exactly on the origin, of inputs whose untransformed result is right; failures beyond the int64-product overflow threshold (differences > 2^31) are a listed finding recognised by magnitude.",
  'C14': GEN+"Exhaustive only for the micro-domain [-2,2]^2 point triples; random hard operands elsewhere. Exact reference arithmetic makes every evaluation a decided comparison.",
  'C15': GEN+"Millions of tiny and planted-collinear paths; every failure is either unattributed (violation) or equals an as-built model run with the documented faulty sign / the upstream algorithm (listed findings).",
  'C16': GEN+"Zig-zags, near-collinear chains, wrap-around and random paths at magnitudes to 2^29, with exact distances and invariance checks; float variant in float arithmetic.",
- 'C17': GEN+"15 spellings per input compared pointwise with the base solution; equal inputs must give equal bytes in-process and in two different worker processes.",
- 'C18': GEN+"The race detector sees only interleavings that occur: 8 (quick) / 80 (thorough) repetitions x 16 or 64 goroutines x 68 calls, with a yield hook in half of them; results are compared with a sequential run.",
+ 'C17': GEN+"16 spellings per input compared pointwise with the base solution; equal inputs must give equal bytes in-process and in two different worker processes.",
+ 'C18': GEN+"The race detector sees only interleavings that occur: 8 (quick) / 80 (thorough) repetitions x 16 or 64 goroutines x 84 calls (42 APIs incl. large inputs, 3 input sets), with a yield hook in half of them; results are compared with a sequential run.",
  'C19': GEN+"Identities between the library's own results are checked with exact areas and at sampled points on small and large (thousands of vertices) inputs.",
 }
 NOTE = "Trusted: the harness oracles (128-bit/ math/big integer arithmetic, float distance with conservative margin), the Go toolchain, and that `-tags verif` hooks only observe. Residual genuine defects met in the closed pool are listed in KNOWN_FINDINGS.json by input or call-site class."
